@@ -228,8 +228,7 @@ def r2(chk, pairs):
         for tag, i1, i2, j1, j2 in difflib.SequenceMatcher(None, t1, t2, autojunk=False).get_opcodes():
             if tag != "equal":
                 changed += t1[i1:i2] + t2[j1:j2]
-        API = {"meta", "Meta", "path", "tokens", "parse_terminated", "parse_args_with", "MacroDelimiter", "delimiter", "List", "Path", "NameValue", "require_list", "attrs", "parse_nested_meta",
-               "Token", "syn", "syn2", "Punctuated", "parse2", "OptionalParenthesizedTokenStream", "content", "TokenStream", "new", "Ok", "Err", "Error", "span", "spanned", "Spanned"}
+        API = {"meta", "Meta", "tokens", "parse_terminated", "parse_args_with", "MacroDelimiter", "delimiter", "List", "NameValue", "require_list", "parse_nested_meta", "Token", "Punctuated"}
         words = [w for w in changed if re.fullmatch(r"[A-Za-z_]\w*", w)]
         independent = bool(words) and not any(w in API for w in words)
         chk.shape("R2", key, False, independent, f, h2["line"],
